@@ -16,6 +16,9 @@ for d in sorted(glob.glob(os.path.join(V, 'seeded', '*'))):
     ok = all(conf.get(k) for k in ('demo_passes_without_change', 'demo_fails_with_change', 'existing_suite_passes_with_change'))
     res = m.get('check_results', {})
     first = m.get('first_check_results', res)
+    fgen = m.get('first_check_results_generators_only')
+    if fgen:
+        first = {k: '%s (generators only: %s)' % (v, fgen.get(k, '?')) for k, v in first.items()}
     summary = m.get('summary') or ''
     if not summary:
         txt = m.get('what_it_needs', '')
@@ -31,13 +34,15 @@ out = ['| id | breaks | confirmed | ./check when the change was written | ./chec
 for r in rows:
     out.append('| %s | %s | %s | %s | %s | %s |' % r)
 conf = [r for r in rows if r[2] == 'yes']
-r1 = [r for r in conf if not r[0].endswith('-r2')]
+r1 = [r for r in conf if not r[0].endswith('-r2') and not r[0].endswith('-r3')]
 r2 = [r for r in conf if r[0].endswith('-r2')]
+r3 = [r for r in conf if r[0].endswith('-r3')]
 out.append('')
-for name, rs in (('round 1 (plausible maintainer mistakes)', r1), ('round 2 (deliberately subtle, written knowing that round 1 was caught)', r2)):
+for name, rs in (('round 1 (plausible maintainer mistakes)', r1), ('round 2 (deliberately subtle, written knowing that round 1 was caught)', r2),
+                 ('round 3 (history-, state- and API-usage-dependent, written knowing the classes of rounds 1 and 2; first evaluated with the coverage-guided search stage)', r3)):
     if rs:
         out.append('%s: %d confirmed changes; %d reported as VIOLATION at first evaluation (%d of them with a failing input); %d reported now (%d with a failing input).' % (
-            name, len(rs), sum('VIOLATION' in r[3] for r in rs), sum('VIOLATION' in r[3] and 'no-failing' not in r[3] for r in rs),
+            name, len(rs), sum(r[3].split(' (generators only')[0].count('VIOLATION') > 0 for r in rs), sum('VIOLATION' in r[3].split(' (generators only')[0] and 'no-failing' not in r[3].split(' (generators only')[0] for r in rs),
             sum('VIOLATION' in r[4] for r in rs), sum('VIOLATION' in r[4] and 'no-failing' not in r[4] for r in rs)))
 if harmless:
     out.append('')
